@@ -37,6 +37,9 @@ Fixpoint itree_of (n : snode) : inode :=
 (* ------------------------------------------------------------------ raw trees and their tokens *)
 Definition norm_decls (ds : nsmap) : nsmap :=
   map (fun d => (match fst d with Some (_ :: _) => fst d | _ => None end, snd d)) ds.
+(* the declarations as written: falsy prefixes are the default one, URIs are escaped *)
+Definition esc_decls (ds : nsmap) : nsmap := map (fun d => (fst d, sax_escape_uri (snd d))) ds.
+Definition wdecls (ds : nsmap) : nsmap := norm_decls (esc_decls ds).
 
 Fixpoint rnode_of (c : nctx) (n : snode) : option rnode :=
   match n with
@@ -52,14 +55,14 @@ Fixpoint rnode_of (c : nctx) (n : snode) : option rnode :=
                            | _, _ => None
                            end
                end) ks with
-      | Some name, inl ats', Some rs => Some (RElem name (norm_decls ds) ats' rs)
+      | Some name, inl ats', Some rs => Some (RElem name (wdecls ds) ats' rs)
       | _, _, _ => None
       end
   end.
 Lemma rnode_of_node c ds q ats ks :
   rnode_of c (SNode ds q ats ks)
   = match n_qname (nc_sets c ds) q, n_attrs (nc_sets c ds) ats, map_opt (rnode_of (nc_sets c ds)) ks with
-    | Some name, inl ats', Some rs => Some (RElem name (norm_decls ds) ats' rs)
+    | Some name, inl ats', Some rs => Some (RElem name (wdecls ds) ats' rs)
     | _, _, _ => None
     end.
 Proof.
@@ -184,7 +187,7 @@ Lemma nsteps_cons k x l :
 Proof. reflexivity. Qed.
 Lemma nstep_start saved c und pend out p u :
   nstep (nst saved c und pend out) (SStartPrefix p u)
-  = inl (nst (c :: saved) (nc_set c u p) (und ++ [(p, u)]) pend out).
+  = inl (nst (c :: saved) (nc_set c u p) (und ++ [(p, sax_escape_uri u)]) pend out).
 Proof. reflexivity. Qed.
 Lemma nstep_end saved x c1 und pend out p :
   nstep (nst (x :: saved) c1 und pend out) (SEndPrefix p) = inl (nst saved x und pend out).
@@ -192,12 +195,12 @@ Proof. reflexivity. Qed.
 
 Lemma nsteps_starts ds : forall saved c und pend out,
   nsteps (nst saved c und pend out) (map (fun d : option str * str => SStartPrefix (fst d) (snd d)) ds)
-  = inl (nst (rev (ctxs c ds) ++ saved) (nc_sets c ds) (und ++ ds) pend out).
+  = inl (nst (rev (ctxs c ds) ++ saved) (nc_sets c ds) (und ++ esc_decls ds) pend out).
 Proof.
   induction ds as [|d ds IH]; intros saved c und pend out.
-  - cbn [map nsteps ctxs rev app nc_sets fold_left]. rewrite app_nil_r. reflexivity.
+  - cbn [map nsteps ctxs rev app nc_sets fold_left esc_decls]. rewrite app_nil_r. reflexivity.
   - cbn [map]. rewrite nsteps_cons, nstep_start, IH. cbn [ctxs rev]. unfold nc_sets. cbn [fold_left].
-    rewrite <- !app_assoc. destruct d. reflexivity.
+    unfold esc_decls. cbn [map]. rewrite <- !app_assoc. reflexivity.
 Qed.
 
 Lemma nsteps_pops ds : forall stk saved c1 und pend out,
@@ -312,17 +315,18 @@ Proof.
     rewrite rnode_of_node, Hq, Hna.
     cbn [sflat]. rewrite nsteps_app, nsteps_starts. cbn [app].
     rewrite nsteps_cons, (nstep_start_elem _ _ _ _ _ _ _ name ats' Hq Hna).
+    change (norm_decls (esc_decls ds)) with (wdecls ds).
     destruct ks as [|k ks'].
     + cbn [map_opt flat_map app]. eexists. split; [reflexivity|split; [cbn; exact I|]].
       rewrite nsteps_cons, nstep_end_elem_pending, nsteps_ends.
       cbn [rtoks rev app]. destruct ds; reflexivity.
     + destruct (native_kids (k :: ks') IH _ _ (rev (ctxs c ds) ++ saved)
-                  (Some (name, norm_decls ds, ats')) (finished pend out) Hkids) as [rs [Hrs [Hok [Hne Hss]]]]; [discriminate|].
+                  (Some (name, wdecls ds, ats')) (finished pend out) Hkids) as [rs [Hrs [Hok [Hne Hss]]]]; [discriminate|].
       rewrite Hrs. eexists. split; [reflexivity|split; [apply rnode_ok_elem, Hok|]].
       rewrite nsteps_app, Hss. cbn [app]. rewrite nsteps_cons, (nstep_end_elem _ _ _ _ _ name Hq), nsteps_ends.
       destruct rs as [|r0 rs']; [contradiction|].
-      change (rtoks (RElem name (norm_decls ds) ats' (r0 :: rs')))
-        with (XStart name (norm_decls ds) ats' :: flat_map rtoks (r0 :: rs') ++ [XEnd name]).
+      change (rtoks (RElem name (wdecls ds) ats' (r0 :: rs')))
+        with (XStart name (wdecls ds) ats' :: flat_map rtoks (r0 :: rs') ++ [XEnd name]).
       cbn [finished rev]. rewrite rev_app_distr. cbn [rev app]. rewrite <- !app_assoc. cbn [app].
       destruct ds; reflexivity.
 Qed.
@@ -343,15 +347,19 @@ Proof.
   destruct p as [[|x p]|]; try reflexivity. exfalso. exact (H (Some [], u) (or_introl eq_refl) eq_refl).
 Qed.
 
+Lemma esc_decls_keys ds : map fst (esc_decls ds) = map fst ds.
+Proof. unfold esc_decls. rewrite map_map. reflexivity. Qed.
+
 Lemma decls_resolve ds :
   Forall decl_fine ds -> NoDup (map fst ds) ->
-  norm_decls ds = ds /\ map_opt decl_value ds = Some ds /\ forallb decl_ok ds = true
+  wdecls ds = esc_decls ds /\ map_opt decl_value (esc_decls ds) = Some ds /\ forallb decl_ok ds = true
   /\ nodup_by ostr_eqb (map fst ds) = true.
 Proof.
   intros Hf Hnd. split; [|split; [|split]].
-  - apply norm_decls_id. intros d Hd. rewrite Forall_forall in Hf. apply (Hf d Hd).
-  - induction Hf as [|[p u] ds [Hv _] _ IH]; [reflexivity|]. cbn [map_opt]. unfold decl_value at 1. cbn [fst snd] in *.
-    rewrite Hv. inversion Hnd; subst. rewrite IH by assumption. reflexivity.
+  - unfold wdecls. apply norm_decls_id. intros d Hd. unfold esc_decls in Hd. apply in_map_iff in Hd as [d0 [E Hd0]].
+    subst d. cbn [fst]. rewrite Forall_forall in Hf. apply (Hf d0 Hd0).
+  - clear Hnd. induction Hf as [|[p u] ds [Hv _] _ IH]; [reflexivity|]. unfold esc_decls. cbn [map map_opt].
+    unfold decl_value at 1. cbn [fst snd] in *. rewrite Hv. fold (esc_decls ds). rewrite IH. reflexivity.
   - apply forallb_forall. intros d Hd. rewrite Forall_forall in Hf. apply (Hf d Hd).
   - apply nodup_by_of_NoDup; [|exact Hnd]. intros x y H. apply ostr_eqb_eq, H.
 Qed.
